@@ -225,26 +225,24 @@ def run(ctx, rep) -> None:
     # only when the plan commit cannot have happened: no task and no synthetic child of ANY status exists
     sir = prog.func("stabilize.handlers.start_stage.handler", "StartStageHandler._start_if_ready")
     spar = _parents(sir.node)
-    running_ifs = [n for n in ast.walk(sir.node) if isinstance(n, ast.If) and norm(n.test) == "stage.status == WorkflowStatus.RUNNING"]
+    from ..dom import conditions_at, leaves_block
+    # the fall-through point: a statement that does not leave, is the last of its block and is reached with the stage NOT in
+    # NOT_STARTED - whatever the spelling of the surrounding ifs
     zomb = None
-    for ri in running_ifs:
-        for n in ri.body:
-            if isinstance(n, ast.If) and n.orelse and isinstance(n.orelse[-1], ast.Return) and not any(isinstance(x, ast.Return) for x in n.body):
-                zomb = n
+    for n in ast.walk(sir.node):
+        for fld in ("body", "orelse"):
+            blk = getattr(n, fld, None)
+            if isinstance(n, ast.If) and isinstance(blk, list) and blk and not leaves_block(blk):
+                facts = conditions_at(sir.node, blk[-1])
+                if ("stage.status == WorkflowStatus.NOT_STARTED", False) in facts and ("stage.status == WorkflowStatus.RUNNING", True) in facts:
+                    if zomb is None or blk[-1].lineno > zomb[0].lineno:
+                        zomb = (blk[-1], facts)
     if zomb is None:
         rep.fail("C10.R5", "zombie re-plan guard", "the branch that lets a RUNNING stage fall through to planning was not found in _start_if_ready", sir.file, sir.node.lineno, disc="zombie-shape")
     else:
-        leaves = []
-
-        def _lv(e, neg=False):
-            if isinstance(e, ast.BoolOp) and isinstance(e.op, ast.And):
-                for v in e.values:
-                    _lv(v, neg)
-            elif isinstance(e, ast.UnaryOp) and isinstance(e.op, ast.Not):
-                _lv(e.operand, not neg)
-            else:
-                leaves.append((e, neg))
-        _lv(zomb.test)
+        fall, facts = zomb
+        # the facts that distinguish this fall-through from the `return` next to it: locals known False here
+        leaves = [(ast.parse(t, mode="eval").body, True) for t, tr in sorted(facts) if tr is False and "stage.status" not in t]
         defs = {}
         for a_ in ast.walk(sir.node):
             if isinstance(a_, ast.Assign) and len(a_.targets) == 1 and isinstance(a_.targets[0], ast.Name):
@@ -288,9 +286,9 @@ def run(ctx, rep) -> None:
                 srcs.add("tasks" if "tasks" in norm(d_[0]) else "synthetic")
         if srcs != {"tasks", "synthetic"} and not bad:
             bad.append(f"the guard looks at {sorted(srcs)} only")
-        rep.check(not bad, "C10.R5", "a duplicate StartStage re-plans a RUNNING stage only if no task and no synthetic child exists at all", "re-plan under `" + norm(zomb.test) + "` with existence-only operands" if not bad else
+        rep.check(not bad, "C10.R5", "a duplicate StartStage re-plans a RUNNING stage only if no task and no synthetic child exists at all", "re-plan only with " + ", ".join(f"not {norm(e)}" for e, _ in leaves) + " (existence-only operands)" if not bad else
                   "; ".join(bad) + ": a RUNNING stage whose planned children already completed is taken for a crashed planning, so the StartStage the sweep re-queues for it plans (and runs) its children a second time",
-                  sir.file, zomb.lineno, disc="zombie-evidence")
+                  sir.file, fall.lineno, disc="zombie-evidence")
 
     # ---- R6 -------------------------------------------------------------------------------------
     from ..statuspred import status_set
